@@ -93,3 +93,12 @@ pub fn nodes_eq(a: &[Node], b: &[Node]) -> bool {
     }
     ok
 }
+
+/// Stub for `u32::pow`: hypercore only calls it as `2u32.pow(power)` with `power < 32`
+/// (`FixedBitfield::set_range`); on that domain `1 << exp` is the same function, and the stub
+/// asserts the domain, so a call outside it is reported instead of mis-modelled.  Removes the
+/// symbolic-by-symbolic multiplications of square-and-multiply, which stall the SAT solver.
+pub fn stub_pow2(base: u32, exp: u32) -> u32 {
+    assert!(base == 2 && exp < 32);
+    1u32 << exp
+}
